@@ -163,6 +163,14 @@ func c13Benign(c *vlib.Ctx) {
 			} else if k > 0 && r.Chance(1, 3) {
 				d.dst, d.id = ds[0].dst, ds[0].id
 				d.src[3] ^= byte(k)
+			} else if k == 1 && r.Chance(1, 2) {
+				// the reply direction with the same identification (the two hosts swapped), or the same addresses and
+				// identification under another protocol: separate datagrams by RFC 791's (src, dst, protocol, id)
+				if r.Bool() {
+					d.src, d.dst, d.id = ds[0].dst, ds[0].src, ds[0].id
+				} else {
+					d.src, d.dst, d.id, d.proto = ds[0].src, ds[0].dst, ds[0].id, 6
+				}
 			}
 			nf := r.Range(2, 8)
 			if i >= n && k == 0 {
